@@ -28,6 +28,11 @@ func handleCALL(params x86genParams, ctx *CodeGenContext) ([]byte, error) {
 		return nil, fmt.Errorf("invalid opcode kind for handleCALL: %v", params.OCode.Kind)
 	}
 
+	if form := branchFormOperand(params.OCode.Operands); form != "" {
+		// pass1 が形式を決めている: そのとおりに出力する
+		return encodeBranchForm(form, nil, []byte{0xe8}, destAddr, currentAddr, ctx.BitMode)
+	}
+
 	// オフセットを計算 (仮に rel32 として計算)
 	offset32 := destAddr - currentAddr - 5
 
